@@ -10,7 +10,7 @@ MAIN_FAMILIES = ("ONE0", "ONE1", "DISJ", "CONF")
 
 
 def make_case(seed, prop, index, families=MAIN_FAMILIES, flavours=S.FLAVOURS_MAIN, shapes=W.SHAPES,
-              nops=(4, 12)):
+              nops=(4, 12), weights=None):
     rng = random.Random("%s:%s:case:%d" % (seed, prop, index))
     fam = families[index % len(families)]
     flavour = flavours[(index // len(families)) % len(flavours)]
@@ -18,9 +18,9 @@ def make_case(seed, prop, index, families=MAIN_FAMILIES, flavours=S.FLAVOURS_MAI
     n = rng.randrange(nops[0], nops[1] + 1)
     g = W.Gen(rng)
     if fam == "ONE0":
-        case = g.case_one(flavour, shape, 0, n, base_side=rng.randrange(2))
+        case = g.case_one(flavour, shape, 0, n, base_side=rng.randrange(2), weights=weights)
     elif fam == "ONE1":
-        case = g.case_one(flavour, shape, 1, n, base_side=rng.randrange(2))
+        case = g.case_one(flavour, shape, 1, n, base_side=rng.randrange(2), weights=weights)
     elif fam == "DISJ":
         case = g.case_disj(flavour, shape, n)
     elif fam == "CONF":
